@@ -31,7 +31,13 @@ JOE_RULE = (
     "message pointer stands for the Publish call the loop accepted with it); messages "
     "without data - &sse.Message{} or an ID only - in every class (recognised by pointer), also through ID-assigning real replayers; Shutdown racing pending "
     "publishes, fan-outs, subscriptions, other Shutdown calls, with and without cancelled context; schedule perturbation at the hook points "
-    "(Gosched, microsecond sleeps, priorities, parked goroutines with time-outs) at GOMAXPROCS 1/2/4/16. Every trace is replayed through "
+    "(Gosched, microsecond sleeps, priorities, parked goroutines with time-outs) at GOMAXPROCS 1/2/4/16; subscribers that are HTTP sessions of an "
+    "sse.Server in front of the Joe (Server.ServeHTTP with a flushing ResponseWriter; OnSession answering topic lists of length 0 - nil or empty - "
+    "1, 2, 3, or no OnSession at all) next to subscribers calling Joe.Subscribe, publications through Server.Publish without topics / with the default "
+    "topic named / with other topics next to Joe.Publish (each such scenario in a process of its own); writers that forward every call to a real "
+    "*sse.Session (a panic there ends the process: observed as a crash); publisher threads that keep ONE topics slice and rewrite it in place "
+    "between calls once the previous delivery round is over; subscribers presenting a Last-Event-ID x every Replay verdict (ok, error, panic). "
+    "Every trace is replayed through "
     "the extracted JoeLts.step (K = the observed trace is not a path of the model) and through the property's monitor (S). "
     "non-trivial = every scenario (each executes the real provider); distinct = distinct (scenario, trace) pairs"
 )
@@ -52,7 +58,8 @@ PROPS["C06"] = {
         "ErrProviderClosed for a call never handed over whose writer was never called. Method: boolean invariant over a finite local view per "
         "subscriber (18816 states x 33 step kinds swept by vm_compute, lifted with forallb_forall; a second, 96-state view per Publish call for its errs channel) + one projection lemma for all labels. "
         "Model = code is validated, not proved: every hook trace of the real Joe observed under perturbed schedules must be a path of the "
-        "extracted step function, and the monitors check no crash / no writer call after return / return values on the observed history."
+        "extracted step function, and the monitors check no crash / no writer call after return / return values / no Send of a nil message "
+        "(what the library's own Session panics on) on the observed history."
     ),
     "level_note": JOE_NOTE,
     "rule": JOE_RULE,
@@ -70,7 +77,9 @@ PROPS["C07"] = {
         "ErrProviderClosed; exactly one caller's close(j.done) succeeds, no panic; from every reachable state a Shutdown call can close "
         "j.done (no deadlock). 'internal' excludes what the environment decides: starting calls, cancelling contexts, and the calls a "
         "Replay makes on the new subscriber's writer. Model = code validated by trace inclusion; the monitor checks on real runs that "
-        "every started call returned before a generous deadline, the return values, one closer, loop exit with nobody registered."
+        "every started call returned before a generous deadline, the return values, one closer, loop exit with nobody registered, and - 'every "
+        "Publish returns (delivered, or ErrProviderClosed)' - that a Publish which returned nil had its Send made on every subscriber that was "
+        "registered and matching when the loop took it, whenever Shutdown arrived."
     ),
     "level_note": JOE_NOTE,
     "rule": JOE_RULE,
